@@ -24,7 +24,7 @@ failures, cases, nontrivial, samples = [], 0, 0, []
 
 def view(stage):
     return {"ref": stage.ref_id, "status": stage.status.name, "req": sorted(stage.requisite_stage_ref_ids), "ctx": stage.context,
-            "out": stage.outputs, "tasks": [(t.id, t.name, t.status.name, t.stage_start, t.stage_end) for t in stage.tasks]}
+            "out": stage.outputs, "split": stage.split_conditions, "tasks": [(t.id, t.name, t.status.name, t.stage_start, t.stage_end) for t in stage.tasks]}
 
 
 def run(counts, order, variant):
@@ -40,7 +40,8 @@ def run(counts, order, variant):
     for i, c in enumerate(counts):
         stages.append(StageExecution(ref_id=f"r{i}", type="t", name=f"S{i}", tasks=per[i], status=STAT[(i + variant) % len(STAT)],
                                      requisite_stage_ref_ids=set(f"r{j}" for j in range(i) if (variant >> j) & 1),
-                                     context=dict(CTX[(i + variant) % len(CTX)]), outputs=dict(CTX[(i + 2 * variant + 1) % len(CTX)])))
+                                     context=dict(CTX[(i + variant) % len(CTX)]), outputs=dict(CTX[(i + 2 * variant + 1) % len(CTX)]),
+                                     split_conditions={} if (i + variant) % 2 else {f"r{i + 1}": "x > 1"}))
     wf = Workflow.create(application="a", name="w", stages=stages, context=dict(CTX[variant % len(CTX)]))
     wf.status = STAT[variant % len(STAT)]
     want = {s.id: view(s) for s in wf.stages}
@@ -60,6 +61,18 @@ def run(counts, order, variant):
         if view(one) != want[s.id]:
             failures.append(dict(case, why="retrieve_stage(): stage read back differs", want=want[s.id], got=view(one)))
             break
+    # what is read back is a private copy: editing a loaded stage in place WITHOUT saving it changes nothing that a later read
+    # of this or another workflow returns (no container shared between reads)
+    for s in back.stages:
+        s.context["__edited__"] = 1
+        s.outputs["__edited__"] = 1
+        s.split_conditions["__edited__"] = "true"
+        s.requisite_stage_ref_ids.add("__edited__")
+    again = store.retrieve(wf.id)
+    dirty = [s.ref_id for s in again.stages if "__edited__" in s.context or "__edited__" in s.outputs or "__edited__" in s.split_conditions
+             or "__edited__" in s.requisite_stage_ref_ids]
+    if dirty:
+        failures.append(dict(case, why="an unsaved in-place edit of a loaded stage shows up in a later read", stages=dirty))
     if len(samples) < 3 and len(set(order)) > 1:
         samples.append(case)
 
